@@ -93,6 +93,11 @@ func consumesReader(info *types.Info, n ast.Node, o types.Object) bool {
 			if len(c.Args) > 0 && rootVar(info, c.Args[0]) == o {
 				found = true
 			}
+		case "io.Copy":
+			// the source is read to the end (fnarg.go: into a hash.Hash)
+			if len(c.Args) == 2 && rootVar(info, c.Args[1]) == o {
+				found = true
+			}
 		}
 		if se, ok := c.Fun.(*ast.SelectorExpr); ok {
 			if rootVar(info, se.X) == o {
@@ -123,16 +128,17 @@ func computeMutParams() {
 	for changed := true; changed; {
 		changed = false
 		for _, fd := range targets {
+			if fd.fnParams == nil {
+				// a function-typed parameter (of an opaque or of a translated function): the closure's state comes
+				// back (fnarg.go)
+				fd.fnParams = fnParamIdx(fd.obj.Type().(*types.Signature))
+				if len(fd.fnParams) > 0 {
+					changed = true
+				}
+			}
 			if fd.opaque {
 				// an external function may do anything with a reader / parser cursor that it is handed: every
 				// such parameter comes back as a new value
-				if fd.fnParams == nil {
-					// a function-typed parameter: the closure's state comes back (fnarg.go)
-					fd.fnParams = fnParamIdx(fd.obj.Type().(*types.Signature))
-					if len(fd.fnParams) > 0 {
-						changed = true
-					}
-				}
 				if fd.mutParams == nil {
 					sig := fd.obj.Type().(*types.Signature)
 					for i := 0; i < sig.Params().Len(); i++ {
@@ -523,12 +529,15 @@ func (t *fnTrans) effectCall(c *ast.CallExpr) (string, []string, bool) {
 		}
 		return b.String(), vals, true
 	}
+	if pre, vals, ok := t.fnParamCall(c); ok {
+		return pre, vals, true
+	}
 	fd, recv := t.callee(c)
 	if fd == nil || !fd.effectful() {
 		return "", nil, false
 	}
 	t.checkRecvPath(c)
-	if fd.opaque && len(fd.fnParams) > 0 {
+	if len(fd.fnParams) > 0 {
 		return t.opaqueFnCall(c, fd, recv)
 	}
 	if fd.opaque {
@@ -568,7 +577,7 @@ func (t *fnTrans) effectCall(c *ast.CallExpr) (string, []string, bool) {
 		parts = append(parts, "E")
 	}
 	if fd.usesX != "" {
-		parts = append(parts, "X")
+		parts = append(parts, t.xArg(c, fd.usesX))
 	}
 	if recv != nil {
 		parts = append(parts, t.expr(recv))
@@ -665,7 +674,7 @@ func (t *fnTrans) defineClosure(id *ast.Ident, fl *ast.FuncLit) {
 		params = append(params, "(E : Ext)")
 	}
 	if ci.usesX = bodyUsesX(t, fl.Body); ci.usesX {
-		params = append(params, fmt.Sprintf("(X : %s)", extStructName(t.fd.pi.short)))
+		params = append(params, fmt.Sprintf("(X : %s)", extStructName(t.fd.usesX)))
 	}
 	for _, v := range ci.caps {
 		params = append(params, fmt.Sprintf("(%s : %s)", t.name(v), leanType(fl, v.Type())))
